@@ -1,0 +1,71 @@
+//go:build verif
+
+// Contracts for the fan-out functions of data.go (C18), checked by nsqvc. Comment-only file.
+
+package clusterinfo
+
+// The workers run in goroutines, which the engine skips; their effect is modelled by the assumed
+// contract of wg.Wait() (.trusted/idata.spec): after Wait the captured variables (errs, the collected
+// data) hold ARBITRARY values. The contracts below therefore state the error shape of the tail of
+// each function (from wg.Wait() on) for every possible number of failed upstreams and every
+// collected result. `errs` is a local, which `ensures` cannot name, so the shape is stated over the
+// results; n = number of upstreams asked:
+//   ipartial       the error is an ErrList (the only PartialErr of the package);
+//   partial-count  a partial error that comes with data carries at least one error and never exactly n
+//                  errors (one per upstream): "all failed" is not reported as partial;
+//   shape          no error | partial error | no data at all (the 502 case).
+//@ pred ipartial(err error) := dyntype(err) == typetag("ErrList")
+//@ pred ipartialCount(err error, n int) := ipartial(err) ==> 0 < len(unbox(err, "ErrList")) && len(unbox(err, "ErrList")) != n
+
+//@ func (c *ClusterInfo) GetLookupdTopics(lookupdHTTPAddrs []string) ([]string, error)
+//@   props C18
+//@   requires c != nil
+//@   ensures[partial-count] result0 != nil ==> ipartialCount(result1, len(lookupdHTTPAddrs))
+//@   ensures[shape] result1 == nil || ipartial(result1) || result0 == nil
+
+//@ func (c *ClusterInfo) GetLookupdTopicChannels(topic string, lookupdHTTPAddrs []string) ([]string, error)
+//@   props C18
+//@   requires c != nil
+//@   ensures[partial-count] result0 != nil ==> ipartialCount(result1, len(lookupdHTTPAddrs))
+//@   ensures[shape] result1 == nil || ipartial(result1) || result0 == nil
+
+//@ func (c *ClusterInfo) GetLookupdProducers(lookupdHTTPAddrs []string) (Producers, error)
+//@   props C18
+//@   requires c != nil
+//@   ensures[partial-count] result0 != nil ==> ipartialCount(result1, len(lookupdHTTPAddrs))
+//@   ensures[shape] result1 == nil || ipartial(result1) || result0 == nil
+// The map filled by the workers only ever receives non-nil producers (proved for the worker:
+// GetLookupdProducers$1/invariant[map]); assumed here because the workers' writes are not modelled.
+//@   loop 1
+//@     assume forall k string :: {producersByAddr[k]} has(producersByAddr, k) ==> producersByAddr[k] != nil
+
+//@ func (c *ClusterInfo) GetLookupdTopicProducers(topic string, lookupdHTTPAddrs []string) (Producers, error)
+//@   props C18
+//@   requires c != nil
+//@   ensures[partial-count] result0 != nil ==> ipartialCount(result1, len(lookupdHTTPAddrs))
+//@   ensures[shape] result1 == nil || ipartial(result1) || result0 == nil
+
+//@ func (c *ClusterInfo) GetNSQDTopics(nsqdHTTPAddrs []string) ([]string, error)
+//@   props C18
+//@   requires c != nil
+//@   ensures[partial-count] result0 != nil ==> ipartialCount(result1, len(nsqdHTTPAddrs))
+//@   ensures[shape] result1 == nil || ipartial(result1) || result0 == nil
+
+//@ func (c *ClusterInfo) GetNSQDProducers(nsqdHTTPAddrs []string) (Producers, error)
+//@   props C18
+//@   requires c != nil
+//@   ensures[partial-count] result0 != nil ==> ipartialCount(result1, len(nsqdHTTPAddrs))
+//@   ensures[shape] result1 == nil || ipartial(result1) || result0 == nil
+
+//@ func (c *ClusterInfo) GetNSQDTopicProducers(topic string, nsqdHTTPAddrs []string) (Producers, error)
+//@   props C18
+//@   requires c != nil
+//@   ensures[partial-count] result0 != nil ==> ipartialCount(result1, len(nsqdHTTPAddrs))
+//@   ensures[shape] result1 == nil || ipartial(result1) || result0 == nil
+
+// GetNSQDStats: "data" = the topic list or the channel map.
+//@ func (c *ClusterInfo) GetNSQDStats(producers Producers, selectedTopic string, selectedChannel string, includeClients bool) ([]*TopicStats, map[string]*ChannelStats, error)
+//@   props C18
+//@   requires c != nil
+//@   ensures[partial-count] result0 != nil || result1 != nil ==> ipartialCount(result2, len(producers))
+//@   ensures[shape] result2 == nil || ipartial(result2) || (result0 == nil && result1 == nil)
